@@ -1,0 +1,46 @@
+//go:build verif
+
+package vgirpc
+
+// Verification hooks (build tag "verif"): thin exported wrappers around the
+// shared-memory allocator internals. Add-only; nothing here is compiled into
+// normal builds.
+
+// VerifAllocate runs the allocator's first-fit allocation under the segment lock.
+func (s *ShmSegment) VerifAllocate(size int) (uint64, bool) {
+	s.mu.Lock()
+	defer s.mu.Unlock()
+	return s.allocateLocked(size)
+}
+
+// VerifFree frees the allocation starting at offset.
+func (s *ShmSegment) VerifFree(offset uint64) error {
+	s.mu.Lock()
+	defer s.mu.Unlock()
+	return s.freeAtLocked(offset)
+}
+
+// VerifTable returns the allocation table as stored in the header.
+func (s *ShmSegment) VerifTable() [][2]uint64 {
+	s.mu.Lock()
+	defer s.mu.Unlock()
+	return s.readAllocs()
+}
+
+// VerifHeaderPrefix returns a copy of the live header bytes: the fixed part
+// followed by the entries the count field covers.
+func (s *ShmSegment) VerifHeaderPrefix() []byte {
+	s.mu.Lock()
+	defer s.mu.Unlock()
+	n := s.numAllocs()
+	end := shmHeaderFixedSize + n*shmAllocEntrySize
+	if end > len(s.data) {
+		end = len(s.data)
+	}
+	out := make([]byte, end)
+	copy(out, s.data[:end])
+	return out
+}
+
+// VerifValidateHeader re-validates magic/version/data_size.
+func (s *ShmSegment) VerifValidateHeader() error { return s.validateHeader() }
